@@ -39,3 +39,11 @@ Definition idx_dom (f : bytes) (sc : scoll) : Prop :=
 (* one numeric regime for the values of field f across a collection *)
 Definition field_regime (m : bool) (f : bytes) (sc : scoll) : Prop :=
   forall id d, In (id, d) (sc_docs sc) -> regime m (doc_get f d) = true.
+
+(* "the input node selected for this query feeds exactly the documents L, in that order, to any pure
+   consumer" — the interface between the scan theorems and the plan-level theorems *)
+Definition input_feeds (c : bytes) (crit : option ncrit) (sort : list (bytes * Z)) (idx : list bytes)
+           (L : list obj) : Prop :=
+  forall (B : Type) (g : obj -> B -> B * bool) (b : B) (s : txst),
+    fault s = None ->
+    runs_to (run_input c crit (fst (try_select_index crit sort idx)) (pure_cons g) b) s (fold_pure g L b).
